@@ -29,7 +29,20 @@ func genTrigger(r *hx.Rand, a *Assets) Trigger {
 	return t
 }
 
-func genOp(r *hx.Rand) Op {
+func genOp(r *hx.Rand, prop string) Op {
+	if prop == "C10" {
+		// every resume type against every wait: many rejections, also after accepted msg resumes
+		switch r.Intn(20) {
+		case 0, 1, 2:
+			return Op{Kind: "dial"}
+		case 3, 4, 5:
+			return Op{Kind: "timeout"}
+		case 6:
+			return Op{Kind: "expiration"}
+		default:
+			return Op{Kind: "msg", Text: hx.Pick(r, words)}
+		}
+	}
 	switch r.Intn(12) {
 	case 0:
 		return Op{Kind: "timeout"}
@@ -168,7 +181,7 @@ func main() {
 				}
 				extra = false
 			}
-			op := genOp(r)
+			op := genOp(r, prop)
 			if prop == "C10" && s != nil {
 				if r.Chance(1, 4) {
 					var where []location
